@@ -67,7 +67,37 @@ func inProcessReplayable(v *Violation) bool { return v.Race == "" }
 // singles) from the history and from each reader script, drop faults, then simplify arguments.
 // Bounded by wall-clock and by the number of replays.
 func minimise(w World, p *Plan, v *Violation, budgetS float64) (*Plan, *Violation) {
-	fresh := !inProcessReplayable(v)
+	mp, mv := minimiseWith(w, p, v, budgetS, !inProcessReplayable(v))
+	if !inProcessReplayable(v) {
+		return mp, mv
+	}
+	// A failure may depend on state the library keeps per process (a package-level pool or cache warmed by
+	// earlier operations). In-process minimisation then cuts away the operations that warmed it, and the
+	// result would not replay in a fresh process: check, and if so minimise again with fresh-process replays.
+	if got := execFresh(mp); got != nil && got.Class() == mv.Class() {
+		return mp, mv
+	}
+	if got := execFresh(p); got != nil && got.Class() == v.Class() {
+		fp, fv := minimiseWith(w, p, got, budgetS, true)
+		fp.Note = "minimised with fresh-process replays: the failure depends on process-wide state of the library"
+		return fp, fv
+	}
+	// depends on state left in the process by earlier runs: replay those first
+	if len(recentPlans) > 0 {
+		c := p.Clone()
+		c.Warmup = append([]*Plan(nil), recentPlans...)
+		c.Note = "the failure depends on state the library keeps per process, left there by earlier runs: the preceding plans of the worker process are replayed first (warmup), with garbage collection off"
+		if got := execFresh(c); got != nil && got.Class() == v.Class() {
+			return c, got
+		}
+	}
+	return p.Clone(), v // (the driver will report that it does not replay)
+}
+
+// recentPlans: the last plans this worker process executed before the current one (oldest first).
+var recentPlans []*Plan
+
+func minimiseWith(w World, p *Plan, v *Violation, budgetS float64, fresh bool) (*Plan, *Violation) {
 	deadline := time.Now().Add(time.Duration(budgetS * float64(time.Second)))
 	replays := 0
 	class := v.Class()
